@@ -393,6 +393,156 @@ def normalise(tree):
     return ["getitem" if tree[0] == "getattr" else tree[0]] + [normalise(c) for c in tree[1:]]
 
 
+# MAD-X names may contain dots: the VARIABLE `el.l` and the attribute `el->l` of the ELEMENT `el` are different places
+# with the same dotted spelling (and so are `el.l->x` and `el->l.x`)
+COLLIDE = ["%s.%s" % (e, k) for e in sorted(ELEMS) for k in ("l", "k", "z")]
+
+
+def leaf_places(tree, out):
+    """dotted spelling -> the distinct places (variable / element attribute) a tree reads under that spelling"""
+    if isinstance(tree, str):
+        return out
+    if tree[0] == "var":
+        out.setdefault(tree[1], set()).add(("v", tree[1]))
+    elif tree[0] == "getitem":
+        out.setdefault("%s.%s" % (tree[1], tree[2]), set()).add(("e", tree[1], tree[2]))
+    else:
+        for c in tree[1:]:
+            leaf_places(c, out)
+    return out
+
+
+def run_seq_case(case, fail, stats):
+    """several strings evaluated one after the other through ONE evaluator object, the way a lattice import uses a MadxEnv
+    (a fresh one per case, so that the case is self-contained): every string means the same deferred as immediately and as
+    Python computes on its tree — when first built, after every change of a variable / an element attribute through the
+    manager, and when built again after the changes; a variable bound to the deferred expression holds that value too.
+    The names are drawn so that variables are spelled like element->attribute paths."""
+    texts, vals, mode = case["texts"], case["vals"], case.get("mode", "item")
+    env, madexpr, madeval, variables, elements = mk_env_fresh(vals, mode)
+    for e, d in case.get("extra_elements", {}).items():
+        for k, v in d.items():
+            if mode == "item":
+                elements.setdefault(e, {})[k] = v
+            else:
+                if e not in elements:
+                    elements[e] = El()
+                setattr(elements[e], k, v)
+    case["_tokens"], case["_tree"] = None, None
+    lark = PLAIN if mode == "item" else PLAIN_ATTR
+    stats["seq_cases"] = stats.get("seq_cases", 0) + 1
+
+    def agree(kind, idx, s, tree, deferred, extra):
+        """deferred == immediate == Python on the current data (the documented NaN-for-x/0 deviation aside)"""
+        imm = outcome(lambda: madeval(s))
+        py = outcome(lambda: py_eval(tree, variables, elements, mode))
+        detail = dict({"texts": texts, "index": idx, "text": s, "mode": mode, "vals": vals, "deferred": deferred,
+                       "immediate": imm, "python": py}, **extra)
+        if imm != py:
+            fail("C19", "immediate-differs-from-python", detail)
+        if has_zero_div(tree, variables, elements, mode):
+            return None
+        if deferred[0] == "exc" and imm[0] == "exc":
+            return None
+        if deferred != imm:
+            fail("C19", kind, detail)
+        return imm if imm[0] == "ok" else None
+
+    def pushed(kind, idx, s, imm, extra):
+        held = outcome(lambda: variables.get("out%d__" % idx))
+        stats["seq_pushed_checks"] = stats.get("seq_pushed_checks", 0) + 1
+        if held != imm:
+            fail("C19", kind, dict({"texts": texts, "index": idx, "text": s, "mode": mode, "vals": vals, "holds": held,
+                                    "immediate": imm}, **extra))
+
+    built, places = [], {}
+    for idx, s in enumerate(texts):
+        try:
+            tree = tree_json(lark.parse(s))
+        except Exception:
+            stats["unparsable"] += 1
+            continue
+        if isinstance(tree, str):
+            continue
+        tree = normalise(tree)
+        leaf_places(tree, places)
+        stats["seq_strings"] = stats.get("seq_strings", 0) + 1
+        try:
+            expr = madexpr(s)
+            deferred = outcome(lambda: expr._get_value() if hasattr(expr, "_get_value") else expr)
+        except Exception as e:
+            expr, deferred = None, ("exc", type(e).__name__)
+        imm = agree("deferred-differs-from-immediate", idx, s, tree, deferred, {"when": "fresh"})
+        built.append([idx, s, tree, expr if deferred[0] == "ok" else None, False, imm])
+    stats["seq_colliding_spellings"] = stats.get("seq_colliding_spellings", 0) + sum(len(p) > 1 for p in places.values())
+    # every deferred expression defines a managed variable: what the manager pushes into it has to follow as well
+    for b in built:
+        idx, s, tree, expr, _, imm = b
+        if expr is not None and hasattr(expr, "_get_value"):
+            try:
+                env._vref["out%d__" % idx] = expr
+                b[4] = True
+            except Exception:
+                continue
+            if imm is not None:
+                pushed("bound-variable-differs-from-immediate", idx, s, imm, {"when": "bound"})
+    updates = [("v", u) for u in case.get("then", [])] + [("e", u) for u in case.get("then_el", [])]
+    for where, u in updates:
+        try:
+            if where == "v":
+                env._vref[u[0]] = u[1]
+            elif mode == "item":
+                env._eref[u[0]][u[1]] = u[2]
+            else:
+                setattr(env._eref[u[0]], u[1], u[2])
+        except Exception:
+            stats["seq_update_raises"] = stats.get("seq_update_raises", 0) + 1
+            return
+        for idx, s, tree, expr, bound, _ in built:
+            if expr is None or not hasattr(expr, "_get_value"):
+                continue
+            stats["seq_update_checks"] = stats.get("seq_update_checks", 0) + 1
+            imm2 = agree("deferred-differs-after-update", idx, s, tree, outcome(expr._get_value), {"after": [where] + list(u)})
+            if bound and imm2 is not None:
+                pushed("bound-variable-stale-after-update", idx, s, imm2, {"after": [where] + list(u)})
+    if updates:
+        # the same strings built again by the same evaluator, on the changed data
+        for idx, s, tree, expr, bound, _ in built:
+            try:
+                again = madexpr(s)
+                deferred = outcome(lambda: again._get_value() if hasattr(again, "_get_value") else again)
+            except Exception as e:
+                deferred = ("exc", type(e).__name__)
+            stats["seq_rebuilt_checks"] = stats.get("seq_rebuilt_checks", 0) + 1
+            agree("rebuilt-deferred-differs-after-update", idx, s, tree, deferred, {"after": [[w] + list(u) for w, u in updates]})
+
+
+def gen_seq_case(rng, depth):
+    """two to four strings over variables spelled like element->attribute paths; one spelling is forced to occur both as a
+    variable and as an element attribute, in the same string or in two successive ones, in either order"""
+    global VARS
+    keep, VARS = VARS, COLLIDE + ["a", "el", "l", "q.1"]
+    try:
+        texts = [gen_sum(rng, rng.randint(0, min(depth, 3))) for _ in range(rng.randint(2, 4))]
+    finally:
+        VARS = keep
+    e, k = rng.choice(sorted(ELEMS)), rng.choice(["l", "k", "z"])
+    leaves = ["%s.%s" % (e, k), "%s->%s" % (e, k)]
+    rng.shuffle(leaves)
+    i = rng.randrange(len(texts))
+    j = rng.randrange(i, len(texts))
+    texts[i] = rng.choice(["%s + %s", "%s - (%s)", "%s*(%s)"]) % (leaves[0], texts[i])
+    texts[j] = rng.choice(["(%s) + %s", "(%s) - %s", "(%s)*%s"]) % (texts[j], leaves[1])
+    pool = [0.0, 1.0, 2.0, -1.5, 0.25, 3.0, 7.0]
+    vals = {v: rng.choice(pool) for v in COLLIDE + ["a", "el", "l", "q.1"]}
+    case = {"kind": "seq", "texts": texts, "vals": vals, "mode": rng.choice(["item", "attr"]),
+            "then": [[rng.choice([leaves[0].replace("->", "."), rng.choice(COLLIDE)]), rng.choice([0.5, -0.0, 2.5, -3.0, 11.0])]
+                     for _ in range(rng.randint(1, 2))]}
+    if rng.random() < 0.7:
+        case["then_el"] = [[e, k, rng.choice([0.5, -2.0, 4.0])]]
+    return case
+
+
 def main():
     ap = argparse.ArgumentParser()
     ap.add_argument("--family", default="c19")
@@ -469,6 +619,34 @@ def main():
                 el = rng.choice(sorted(ELEMS))
                 c["then_el"] = [[el, rng.choice(sorted(ELEMS[el])), rng.choice([0.5, -2.0, 4.0])]]
             cases.append(c)
+        # strings sharing one evaluator, over variables spelled like element->attribute paths (a generator of its own: the
+        # cases above stay what they were)
+        rng_seq = random.Random(a.seed * 1000003 + 1919)
+        for i in range(a.n // 16):
+            cases.append(gen_seq_case(rng_seq, a.depth))
+        if a.fixed:
+            # variables spelled like an element->attribute path (`el.l` next to `el->l`): several strings through one evaluator,
+            # the variable seen first / the element seen first
+            cvals = {"a": 2.0, "b": 3.0, "a.b": -1.25, "el.l": 7.0, "el.k": 0.25, "el.z": 1.0, "q.1.l": 0.5, "q.1.k": -4.0, "q.1.z": 6.0}
+            seq = ["el.k*2", "el->k*el->l", "(el->k+el.k)^2", "atan2(el.l,(el->l+1))", "a.b-el->l"]
+            for mode in ("item", "attr"):
+                for texts in [seq, [seq[i] for i in (1, 0, 3, 2, 4)], ["q.1.k", "q.1->k"], ["q.1->k", "q.1.k"],
+                              ["el->z + 1", "2*el.z", "el->z - el.z"], ["sin(q.1.l)", "cos(q.1->l)", "q.1.l^2 + q.1->l^2"]]:
+                    cases.append({"kind": "seq", "texts": texts, "vals": cvals, "mode": mode,
+                                  "then": [["el.k", 0.75], ["el.l", 11.0], ["q.1.k", 8.0], ["el.z", -0.0]],
+                                  "then_el": [["el", "k", -0.04], ["el", "l", 2.5], ["q.1", "k", 0.3], ["q.1", "l", -1.0]]})
+                # two element attributes with one dotted spelling (`el.l->x`, `el->l.x`), and the variable `el.l.x`
+                for texts in [["el.l->x - el->l.x", "el.l.x"], ["el.l.x*2", "el->l.x", "el.l->x"], ["el->l.x", "el.l->x + el.l.x"]]:
+                    cases.append({"kind": "seq", "texts": texts, "vals": dict(cvals, **{"el.l.x": 1.0}), "mode": mode,
+                                  "extra_elements": {"el.l": {"x": 5.0}, "el": {"l.x": 9.0}},
+                                  "then": [["el.l.x", -2.0]], "then_el": [["el.l", "x", 0.5], ["el", "l.x", 4.0]]})
+            # one string holding both spellings, as ordinary cases (so that the model's parser sees these names too); last,
+            # because they go through the evaluator that the ordinary cases of this worker share
+            for s in ["el.l - el->l", "el->k*el.k", "(el->k+el.k)^2", "atan2(el.l,(el->l+1))", "q.1.k/q.1->k", "q.1->l + q.1.l*a",
+                      "-el.z + el->z + el.l", "hypot(q.1->z, q.1.z)"]:
+                for mode in ("item", "attr"):
+                    cases.append({"text": s, "vals": cvals, "mode": mode, "then": [["el.l", 11.0], ["el.k", 0.75], ["q.1.k", 8.0]],
+                                  "then_el": [["el", "k", -0.04], ["q.1", "l", 2.5]]})
     for i, case in enumerate(cases):
         def fail(prop, kind, detail, known=None, i=i):
             failures.append({"property": prop, "kind": kind, "hist": i, "op_index": 0, "detail": detail, "known": known})
@@ -477,6 +655,9 @@ def main():
         if case.get("kind") == "assign":
             run_assign_case(case, fail, stats)
             case.setdefault("text", "; ".join(case["stmts"]))
+        elif case.get("kind") == "seq":
+            run_seq_case(case, fail, stats)
+            case.setdefault("text", " ;; ".join(case["texts"]))
         else:
             run_case(case, fail, stats)
         line = {k: v for k, v in case.items() if not k.startswith("_")}
